@@ -13,19 +13,31 @@ package fifo
 // (incremented by Lock, decremented by Unlock). Other goroutines only ever remove their own units, so from
 // this goroutine's point of view an entry's ilen is never smaller than mine[k]: that is the lock invariant.
 
+// The token channel has exactly one slot (a second slot would admit two holders); Lock returns only after its send
+// on it succeeded and Unlock takes exactly one unit out (ghost m.tokens: units the current goroutine put in).
+//@ type Mutex
+//@   ghost tokens int
+
 //@ func New
 //@   tags C13 C07
 //@   modifies nothing
 //@   ensures fresh(result) && result != nil
+//@   ensures [C13.fifo.oneslot] cap(result.lock) == 1
 
 //@ func (*Mutex).Lock
 //@   tags C13
 //@   requires m != nil
+//@   ensures [C13.fifo.lock.token] m.tokens == old(m.tokens) + 1
+//@   at every send ghost m.tokens = m.tokens + (arg0 == m.lock ? 1 : 0)
+//@   at every recv ghost m.tokens = m.tokens - (arg0 == m.lock ? 1 : 0)
 //@   opt lockop=lock
 //@   opt go=ignore
 //@ func (*Mutex).Unlock
 //@   tags C13
 //@   requires m != nil
+//@   ensures [C13.fifo.unlock.token] m.tokens == old(m.tokens) - 1
+//@   at every recv ghost m.tokens = m.tokens - (arg0 == m.lock ? 1 : 0)
+//@   at every send ghost m.tokens = m.tokens + (arg0 == m.lock ? 1 : 0)
 //@   opt lockop=unlock
 //@   opt go=ignore
 
